@@ -92,6 +92,33 @@ def joined(toks):
 
 CMP_OPS = ("<", "<=", ">", ">=", "==", "!=")
 
+# Fourth audit: statements that only log (`debug!(..);`, `trace!(..);` ...) are not part of the compared token
+# stream - neither in the templates nor in the sources - so that an added or removed log line is no alarm.
+# (Trusted: the arguments of a log macro have no effect on the analysis.)
+LOG_MACROS = ("trace", "debug", "info", "warn", "error")
+
+
+def strip_logs(toks):
+    out, i = [], 0
+    while i < len(toks):
+        if (toks[i][0] == "id" and toks[i][1] in LOG_MACROS and i + 2 < len(toks) and toks[i + 1] == ("op", "!")
+                and toks[i + 2] == ("op", "(") and (i == 0 or toks[i - 1][1] in (";", "{", "}"))):
+            depth, j = 0, i + 2
+            while j < len(toks):
+                if toks[j] == ("op", "("):
+                    depth += 1
+                elif toks[j] == ("op", ")"):
+                    depth -= 1
+                    if depth == 0:
+                        break
+                j += 1
+            if j + 1 < len(toks) and toks[j + 1] == ("op", ";"):
+                i = j + 2
+                continue
+        out.append(toks[i])
+        i += 1
+    return out
+
 # ---------------------------------------------------------------------------
 # templates
 # ---------------------------------------------------------------------------
@@ -102,7 +129,7 @@ HOLE_KINDS = ("str", "num", "id", "cmp", "sign", "loc")
 
 
 def parse_template(text):
-    toks = tokens(text)
+    toks = strip_logs(tokens(text))
     pos = [0]
 
     def seq(closer):
@@ -256,6 +283,7 @@ def match_template(template, toks, locals=()):
     the item still matches.  Two locals never share one name and a local never takes the name of an
     identifier the template spells out (that could be a capture; such a text does not match)."""
     nodes = parse_template(template)
+    toks = strip_logs(toks)
     if locals:
         nodes = _localise(nodes, frozenset(locals))
     st = {"far": 0, "want": None, "locs": {}, "lits": _literal_ids(nodes)}
@@ -556,7 +584,25 @@ fn update_components(stmt: &Statement, components: &mut HashMap<VariableAccess, 
             } else if component_name == $str:rc_name && args.len() == $num:rc_arity {
                 trace!($str:_, vec_to_display(&access, ""));
                 let component = VariableAccess::new(var, &access);
-                components.insert(component, Component::num_2_bits(&args[$num:rc_idx]));
+                $(weakest
+                let keep_old = match components.get(&component) {
+                    Some(Component::Num2Bits { bit_size: old }) => {
+                        match (old.value(), args[$num:w_idx].value()) {
+                            (
+                                Some(ValueReduction::FieldElement { value: old_size }),
+                                Some(ValueReduction::FieldElement { value: new_size }),
+                            ) => old_size >= new_size,
+                            (Some(ValueReduction::FieldElement { .. }), _) => false,
+                            _ => true,
+                        }
+                    }
+                    _ => false,
+                };
+                $)
+                $(plain components.insert(component, Component::num_2_bits(&args[$num:rc_idx])); $)
+                $(guarded if !keep_old {
+                    components.insert(component, Component::num_2_bits(&args[$num:rc_idx]));
+                } $)
             }
         }
     }
@@ -956,7 +1002,7 @@ LOCALS = {
     "nonstrict::visit_statement": ("stmt", "prime_size", "reports", "var_meta", "component_meta", "component_name", "arg"),
     "lessthan::find_unconstrained_less_than": ("cfg", "components", "inputs", "constraints", "basic_block", "stmt", "input",
                                                "reports", "max_value", "data", "is_positive"),
-    "lessthan::update_components": ("stmt", "components", "component_name", "component"),
+    "lessthan::update_components": ("stmt", "components", "component_name", "component", "keep_old", "old", "old_size", "new_size"),
     "lessthan::update_inputs": ("stmt", "components", "inputs", "component_access", "signal_access", "index_access", "component",
                                 "signal_name"),
     "constants::Curve::from_str": ("curve",),
